@@ -219,7 +219,7 @@ def run_delivery(config, pieces, finish_points=()):
             s.feed(p)
             if i in fp:
                 s.finish_one()
-        steps = s.quiesce()
+        s.quiesce()
         obs = {
             "requests": s.records,
             "output": _mask(config, s.output()),
@@ -302,7 +302,7 @@ def split_plans(ctx, rng, stream):
     if n <= 300:
         for pieces in netsim.all_splits(stream, 1):
             yield pieces, "1cut"
-        if n <= (40 if ctx.quick else 90):
+        if n <= (40 if ctx.quick else 70):
             for pieces in netsim.all_splits(stream, 2):
                 yield pieces, "2cut-all"
         else:
@@ -363,7 +363,7 @@ def check_stream(ctx, rng, config, stream, desc):
 
 def run(ctx):
     refhttp.selftest()
-    for i in ctx.cases(600, 40000):
+    for i in ctx.cases(600, 12000):
         rng = ctx.case_rng(i)
         config = "site" if i % 5 == 4 else "channel"
         if i % 20 == 7:
